@@ -3397,6 +3397,7 @@ static  void jdf_generate_deps_key_functions(const jdf_t *jdf, const jdf_functio
         string_arena_t *sa_params = string_arena_new(64);
         string_arena_t *sa_info = string_arena_new(64);
         expr_info_t info;
+        jdf_param_list_t *pl;
         int first_param = 1;
         int need_assignment = 0;
 
@@ -3429,9 +3430,6 @@ static  void jdf_generate_deps_key_functions(const jdf_t *jdf, const jdf_functio
             if( local_is_parameter(f, vl) != NULL ) {
                 coutput("  int %s = (__parsec_key) %% __parsec_tp->%s_%s_range + __parsec_tp->%s_%s_min;\n",
                             vl->name, f->fname, vl->name, f->fname, vl->name);
-                string_arena_add_string(sa_format, "%s%%d", first_param?"":", ");
-                string_arena_add_string(sa_params, "%s%s", first_param?"":", ", vl->name);
-                first_param = 0;
                 coutput("  __parsec_key = __parsec_key / __parsec_tp->%s_%s_range;\n",
                         f->fname, vl->name);
             } else {
@@ -3449,6 +3447,13 @@ static  void jdf_generate_deps_key_functions(const jdf_t *jdf, const jdf_functio
         }
         if(need_assignment)
             coutput("  (void)"JDF2C_NAMESPACE"_assignments;\n");
+        /* The key is decoded in the order of the locals, but it names the task: print the
+         * parameters in the order of the task signature, as parsec_task_snprintf does. */
+        for(pl = f->parameters; pl != NULL; pl = pl->next) {
+            string_arena_add_string(sa_format, "%s%%d", first_param?"":", ");
+            string_arena_add_string(sa_params, "%s%s", first_param?"":", ", pl->name);
+            first_param = 0;
+        }
         coutput("  snprintf(buffer, buffer_size, \"%s(%s)\", %s);\n"
                 "  return buffer;\n"
                 "}\n"
